@@ -226,7 +226,7 @@ func TestC18(t *testing.T) {
 	curProp = "C18"
 	r := vf.NewRec("C18")
 	defer r.Finish(t)
-	guard.StartWatchdog(*vf.Out, "C18")
+	guard.StartWatchdog(*vf.Out, vf.Label("C18"))
 
 	for _, rf := range r.LoadReplays(t) {
 		var c caseC18
